@@ -518,6 +518,10 @@ class Simulator(BaseSimObj):
 
         out_obj.pilot_signals = np.array(attribute_dict["pilot_signals"])
         out_obj.charging_rates = np.array(attribute_dict["charging_rates"])
+        if len(network.station_ids) == 0:
+            # JSON stores a matrix without rows (network without EVSEs) as an empty list.
+            out_obj.pilot_signals = out_obj.pilot_signals.reshape((0, 0))
+            out_obj.charging_rates = out_obj.charging_rates.reshape((0, 0))
 
         ev_history = {}
         for session_id, ev in attribute_dict["ev_history"].items():
